@@ -31,6 +31,40 @@ type modItem struct {
 	lo    string // absolute index range for "range"
 	hi    string
 	comp  string
+	// "objrange": elements [lo,hi) (all of them when lo == "") of the object-typed backing
+	// array ref; one item per heap component that holds part of an element
+	leaf  *objLeaf
+	csort string
+}
+
+// objRegionCond: r (an index into the item's component) lies inside the element region
+// named by an "objrange" item.
+func (vc *FnVC) objRegionCond(m modItem, r string) string {
+	vc.elemRef(m.elem, "0", "0")
+	efn := "elem$" + shortTypeName(m.elem)
+	e := m.leaf.inv(r)
+	a := fmt.Sprintf("(%s$arr %s)", efn, e)
+	i := fmt.Sprintf("(%s$idx %s)", efn, e)
+	c := fmt.Sprintf("(and (= %s %s) (= %s %s)", r, m.leaf.path(fmt.Sprintf("(%s %s %s)", efn, a, i)), a, m.ref)
+	if m.lo != "" {
+		c += fmt.Sprintf(" (<= %s %s) (< %s %s)", m.lo, i, i, m.hi)
+	}
+	return c + ")"
+}
+
+// objRangeItems builds the "objrange" items for elements [lo,hi) of an object-typed array.
+func (vc *FnVC) objRangeItems(text, arr string, el types.Type, lo, hi string) ([]modItem, error) {
+	var leaves []objLeaf
+	id := func(r string) string { return r }
+	if !vc.objLeaves(el, id, id, &leaves) {
+		return nil, fmt.Errorf("modifies on a slice of %s: element type not supported", el)
+	}
+	var out []modItem
+	for k := range leaves {
+		lf := leaves[k]
+		out = append(out, modItem{text: text, kind: "objrange", ref: arr, elem: el, lo: lo, hi: hi, comp: lf.comp, csort: lf.sort, leaf: &lf})
+	}
+	return out, nil
 }
 
 func posStr(fset *token.FileSet, p token.Pos) string {
@@ -343,6 +377,26 @@ func (vc *FnVC) resolveName(name string, b *ssa.BasicBlock, before int) (ssa.Val
 	return nil, false
 }
 
+// allocLocalTerm: a local variable that lives in memory (address taken, named result): its
+// current content read from the environment's heap.
+func (vc *FnVC) allocLocalTerm(name string, env *Env) (Term, bool) {
+	for _, b := range vc.fn.Blocks {
+		for _, in := range b.Instrs {
+			a, ok := in.(*ssa.Alloc)
+			if !ok || a.Comment != name {
+				continue
+			}
+			ref, ok := vc.vals[a]
+			if !ok {
+				return Term{}, false
+			}
+			et := a.Type().Underlying().(*types.Pointer).Elem()
+			return Term{S: vc.loadObject(ref.S, et, env.curHeap()), Sort: vc.sortOf(et), T: et}, true
+		}
+	}
+	return Term{}, false
+}
+
 // ------------------------------------------------------------------ main translation
 
 func (vc *FnVC) setupEntry() {
@@ -376,7 +430,9 @@ func (vc *FnVC) setupEntry() {
 		}
 		name := p.Name()
 		if vc.fc != nil && i < len(vc.fc.Params) && vc.fc.Params[i] != "_" {
-			if vc.fc.Params[i] != name {
+			// "result" is reserved in contracts (the value returned); a parameter of that name
+			// must be renamed in the header
+			if vc.fc.Params[i] != name && name != "result" {
 				vc.notes = append(vc.notes, fmt.Sprintf("DRIFT parameter %d is named %q in the contract header, %q in the code", i, vc.fc.Params[i], name))
 			}
 			name = vc.fc.Params[i]
@@ -543,7 +599,7 @@ func (vc *FnVC) elabModItem(env *Env, item string) (out []modItem, err error) {
 			st, _ := typeUnder[*types.Slice](t.T)
 			c, _ := vc.elemComp(st.Elem())
 			if isObjectType(st.Elem()) {
-				return nil, fmt.Errorf("modifies on slices of objects unsupported")
+				return vc.objRangeItems(item, fmt.Sprintf("(s.arr %s)", t.S), st.Elem(), "", "")
 			}
 			return []modItem{{text: item, kind: "elems", ref: fmt.Sprintf("(s.arr %s)", t.S), elem: st.Elem(), comp: c}}, nil
 		}
@@ -562,6 +618,14 @@ func (vc *FnVC) elabModItem(env *Env, item string) (out []modItem, err error) {
 	switch x := x.(type) {
 	case *SUnary:
 		if x.Op == "*" {
+			if id, isId := x.X.(*SIdent); isId && env.locVars != nil {
+				if l, ok := env.locVars[id.Name]; ok {
+					if l.idx != "" {
+						return []modItem{{text: item, kind: "range", ref: l.ref, elem: l.T, comp: l.comp, lo: l.idx, hi: fmt.Sprintf("(+ %s 1)", l.idx)}}, nil
+					}
+					return []modItem{{text: item, kind: "field", ref: l.ref, comp: l.comp}}, nil
+				}
+			}
 			t := env.elab(x.X)
 			pt, ok := typeUnder[*types.Pointer](t.T)
 			if !ok {
@@ -581,6 +645,9 @@ func (vc *FnVC) elabModItem(env *Env, item string) (out []modItem, err error) {
 		}
 		if x.Hi != nil {
 			hi = env.elab(x.Hi).S
+		}
+		if isObjectType(st.Elem()) {
+			return vc.objRangeItems(item, fmt.Sprintf("(s.arr %s)", t.S), st.Elem(), fmt.Sprintf("(+ (s.off %s) %s)", t.S, lo), fmt.Sprintf("(+ (s.off %s) %s)", t.S, hi))
 		}
 		c, _ := vc.elemComp(st.Elem())
 		return []modItem{{text: item, kind: "range", ref: fmt.Sprintf("(s.arr %s)", t.S), elem: st.Elem(), comp: c,
@@ -666,6 +733,8 @@ func (vc *FnVC) checkWrite(comp, ref, idx, what string, pos token.Pos) {
 			return
 		case "field", "elems":
 			alts = append(alts, fmt.Sprintf("(= %s %s)", ref, m.ref))
+		case "objrange":
+			alts = append(alts, vc.objRegionCond(m, ref))
 		case "range":
 			if idx == "" {
 				continue
@@ -891,7 +960,7 @@ func (vc *FnVC) invEnv(h *ssa.BasicBlock, override map[ssa.Value]Term, heap map[
 	env.lookup = func(name string) (Term, bool) {
 		v, ok := vc.resolveName(name, h, vc.firstNonPhi(h))
 		if !ok {
-			return Term{}, false
+			return vc.allocLocalTerm(name, env)
 		}
 		if t, ok := override[v]; ok {
 			return t, true
